@@ -350,6 +350,14 @@ pub fn shard(ctx: &Ctx) -> Shard {
             }
             continue;
         }
+        // a third of the histories use longer deferred-dump times (30 / 90 ms instead of 1 / 3 ms): the operations that
+        // follow a delete into a closed blob then reach the worker while its deferred deadline is still pending,
+        // and a second deferred request can arrive before the first one is due
+        if n % 3 == 0 {
+            cfg.deferred_ms = Some((30, 90));
+            l.cfg = cfg.clone();
+            sh.add("histories_long_deferred_dump_times", 1);
+        }
         // a quarter of the histories re-open the directory under another bloom configuration at every restart
         let mut ops = ops;
         if n % 4 == 1 {
